@@ -182,3 +182,16 @@ pub mod mania;
 
 /// Types used in and around this crate.
 pub mod model;
+
+/// Hooks for the verification harness in `/verif`.
+///
+/// Only compiled with `RUSTFLAGS="--cfg rosu_pp_verif"`; re-exports internal
+/// types so that they can be driven directly.
+#[cfg(rosu_pp_verif)]
+#[doc(hidden)]
+pub mod verif {
+    pub use crate::util::{
+        sort::{osu_legacy, TandemSorter},
+        strains_vec::StrainsVec,
+    };
+}
